@@ -806,6 +806,7 @@ def dag_to_mag(G, L: Optional[Set] = None, S: Optional[Set] = None):
     # find the ancestors of B U S (ansB) and A U S (ansA) for each pair of adjacent nodes
 
     mag = ADMG()
+    mag.add_nodes_from(all_nodes - set(L) - set(S))
 
     for A, B in adj_nodes:
         AuS = S.union(A)
